@@ -367,10 +367,12 @@ func (w *World) Reset() {
 // For type-safe generics queries, see package [github.com/mlange-42/arche/generic].
 // For advanced filtering, see package [github.com/mlange-42/arche/filter].
 func (w *World) Query(filter Filter) Query {
-	l := w.lock()
 	if cached, ok := filter.(*CachedFilter); ok {
-		return newCachedQuery(w, cached.filter, l, w.filterCache.get(cached).Archetypes.pointers)
+		archetypes := w.filterCache.get(cached).Archetypes.pointers
+		l := w.lock()
+		return newCachedQuery(w, cached.filter, l, archetypes)
 	}
+	l := w.lock()
 
 	return newQuery(w, filter, l, w.nodePointers)
 }
